@@ -215,8 +215,8 @@ def describe(tier):
                 "platforms added/removed; top-level variants incl. dashed UID 'Server-optional'; child variants of every type "
                 "under any variant to depth 3; each of the 7 path kinds set to a path / '' / '.' / unset; image-table entries "
                 "per platform with lower, Mixed.Case and 'dir/with space' option names; stage2 none/main/inst/both; media "
-                "none/1of1/2of3; checksums md5/sha1/sha256/sha512 added/removed) from 4 seeds (flat, src, layered+media, "
-                "nested depth 3).  Every state: build -> dump -> loads -> observe == spec -> dump byte-identical; again from "
+                "none/1of1/2of3; checksums md5/sha1/sha256/sha512 added/removed) from 5 seeds (flat, src, layered+media, "
+                "nested depth 3, Server-optional tree).  Every state: build -> dump -> loads -> observe == spec -> dump byte-identical; again from "
                 "the re-loaded parent.  discinfo: full grid of 9 timestamps x all descriptions of length <= 3 over "
                 "{a, blank, \", ', #} inside the domain + 3 long ones x 3 arches x 4 disc-number lists.  Non-trivial: a tree with "
                 "more than one variant or any optional section; a discinfo with a multi-character description or disc list.",
